@@ -1,5 +1,5 @@
 # C19  time line: proof (Coq) + correspondence of the executable model with src/TimeLine.hpp
-import os, math, json
+import os, math, json, re
 import vf
 
 LEVEL = "proof"
@@ -169,8 +169,91 @@ def split_cases(lines):
     return cases
 
 
+MYR = 3.15576e13      # s (Julian year x 1e6, the code's Myr)
+
+
+def driver_tie(ck):
+    """the two hydro drivers use the time line as the property says: parsed from the log of complete runs of the real binary:
+    every executed step is at least the configured minimum (a smaller request stops the run), at most the configured maximum,
+    time never passes the end, the steps of a completed run sum to the total interval, and a run restarted from the dump
+    written after its last step takes no further step"""
+    import shutil
+    okb, logb = vf.repo_ninja(["CMacIonize"])
+    if not okb:
+        ck.breaks.append("whole binary does not build: " + logb[-800:])
+        return 0
+    exe = os.path.join(vf.REPOBUILD, "rundir", "CMacIonize")
+    conf = os.path.join(vf.VERIF, "harness", "configs")
+    step_re = re.compile(r"Starting hydro step (\d+), t = ([0-9.eE+-]+) (s|Myr), dt = ([0-9.eE+-]+) (s|Myr)")
+    def steps_of(out):
+        res = []
+        for m in step_re.finditer(out):
+            t = float(m.group(2)) * (MYR if m.group(3) == "Myr" else 1.0)
+            dt = float(m.group(4)) * (MYR if m.group(5) == "Myr" else 1.0)
+            res.append((int(m.group(1)), t, dt))
+        return res
+    n = 0
+    runs = [("task-based RHD, natural end", ["--task-based-rhd"], "hydro.param", {"total time: 0.02 s": "total time: 0.0001 s"}, 1e-4, 0.0, 0.0, True),
+            ("legacy RHD, photo-heating drives the request below the configured minimum", ["--rhd"], "legacy_min_step.param", {}, 0.1 * MYR, 0.01 * MYR, 0.02 * MYR, False)]
+    for name, mode, param, subs, total, tmin, tmax, restartable in runs:
+        w = os.path.join(ck.scratch, "drv_" + param)
+        shutil.rmtree(w, ignore_errors=True)
+        os.makedirs(w)
+        for f in os.listdir(conf):
+            shutil.copy(os.path.join(conf, f), w)
+        txt = open(os.path.join(conf, param)).read()
+        for a, b in subs.items():
+            txt = txt.replace(a, b)
+        open(os.path.join(w, "run.param"), "w").write(txt)
+        rc, out = vf.sh([exe] + mode + ["--params", "run.param", "--threads", "1", "--dirty"], cwd=w, timeout=600)
+        st = steps_of(out)
+        n += len(st)
+        rp = {"driver_run": {"name": name, "mode": mode, "param": param, "subs": subs}}
+        why = None
+        if rc != 0:
+            why = "the run exits with status %d" % rc
+        elif not st:
+            ck.breaks.append("driver tie: no 'Starting hydro step' lines in the log of `%s`" % name)
+            continue
+        for (k, t, dt) in st:
+            if why:
+                break
+            if tmin > 0 and dt < tmin * (1 - 1e-5):
+                why = "hydro step %d is executed with dt = %r s, below the configured minimum %r s (a request below the minimum must stop the run)" % (k, dt, tmin)
+            elif tmax > 0 and dt > tmax * (1 + 1e-5):
+                why = "hydro step %d is executed with dt = %r s, above the configured maximum %r s" % (k, dt, tmax)
+            elif t + dt > total * (1 + 1e-5):
+                why = "hydro step %d runs from t = %r s with dt = %r s past the end time %r s" % (k, t, dt, total)
+        stopped = "Prematurely stopping" in out or "prematurely" in out.lower()
+        clause = None
+        if not why and not stopped and abs(sum(x[2] for x in st) - total) > 1e-5 * total:
+            ssum = sum(x[2] for x in st)
+            why = "the run completed but the %d steps it executed sum to %r s, the total interval is %r s" % (len(st), ssum, total)
+            if abs(ssum + st[-1][2] - total) <= 1e-5 * total:
+                # TimeLine::advance is called BEFORE a step is integrated and returns false for the step that lands on the end time;
+                # the driver loop `while (has_next_step)` then ends without integrating that step
+                clause = "last_step_not_integrated"
+                why += (": the time line handed out a last step of %r s that lands on the end time, but the driver leaves its loop as soon as advance() returns false "
+                        "and never integrates it (the final state and snapshot are those of t = %r s)" % (st[-1][2], ssum))
+        if (not why or clause) and restartable:
+            rc2, out2 = vf.sh([exe] + mode + ["--params", "run.param", "--threads", "1", "--dirty", "--restart", "."], cwd=w, timeout=600)
+            st2 = steps_of(out2)
+            if st2:
+                clause = None
+                why = "restarted from the dump written after its last step (t = end time) the run executes %d more step(s), the first from t = %r s (end time %r s)" % (len(st2), st2[0][1], total)
+        if why:
+            key = {"kind": "driver", "mode": mode[0]}
+            if clause:
+                key["clause"] = clause
+            ck.violation("C19 fails on the real binary (%s): %s" % (name, why), rp, key=key)
+        shutil.rmtree(w, ignore_errors=True)
+    ck.coverage["driver_steps_checked"] = n
+    return n
+
+
 def run(ck):
     ok_proof = ck.prove()
+    driver_tie(ck)
     d = ck.scratch
     ok1, log1 = vf.coq_extract("C19", d)
     ok2, log2 = (False, "") if not ok1 else vf.ocaml_build(d, ["c19_model"], os.path.join(vf.VERIF, "ocaml/c19_driver.ml"), "model", floats=True)
@@ -262,6 +345,11 @@ def run(ck):
 
 
 def replay(ck, rp):
+    if "driver_run" in rp.get("replay", {}):
+        driver_tie(ck)
+        bad = [v for v in ck.violations if v["key"].get("kind") == "driver"]
+        print("REPLAY:", bad[0]["what"] if bad else "property holds on this input")
+        return 1 if bad else 0
     d = ck.scratch
     ok3, log3 = vf.cxx_build(os.path.join(vf.VERIF, "harness/c19/timeline_harness.cpp"), os.path.join(d, "impl"), openmp=False)
     ops = rp["replay"]["ops"]
